@@ -124,4 +124,6 @@ if __name__ == "__main__":
     opsmain.main(PROP, cases, "C02 controlled application / refusal / act_on",
                  "C02_semantics, C02_refusal, C02_act_on",
                  "every gate kind x every valid mask x every control mask (disjoint and overlapping) on registers of 1..3(4) "
-                 "qubits via matrix(n); nested controls and controls on products/qft/h on 4 qubits; dense states; wide masks; SingleOp::c called directly on (already controlled) queue elements, all masks")
+                 "qubits via matrix(n); nested controls and controls on products/qft/h on 4 qubits; dense states; wide masks; SingleOp::c called directly on (already controlled) queue elements, all masks; "
+                 "sparse probes on registers of 14-17 qubits (serial and under 2-7 workers) with 1-3 controls and the gate on qubits 10-16, "
+                 "basis states with all / some / none of the controls set")
